@@ -56,9 +56,21 @@ func produce(rng *rand.Rand, nd *Node, momentums int, out *Out, actors []*wallet
 				out.Count("gen:insert-failed")
 			}
 		}
-		nd.Momentum()
+		// now and then a producer misses its slot(s): the statistics of the epoch (produced / expected per pillar)
+		// then depend on the branch
+		if gaps && rng.Intn(5) == 0 {
+			if err := ProduceAt(nd, int64(10*(2+rng.Intn(3)))); err != nil {
+				nd.Momentum()
+			} else {
+				out.Count("gen:momentum-after-empty-slots")
+			}
+		} else {
+			nd.Momentum()
+		}
 	}
 }
+
+var gaps = true
 
 type iterable interface {
 	NewIterator(prefix []byte) db.StorageIterator
@@ -150,6 +162,18 @@ func nodeReorg(rng *rand.Rand, out *Out) {
 	LA := 1 + rng.Intn(12)     // abandoned branch
 	LB := LA + 1 + rng.Intn(4) // adopted branch, strictly longer
 	produce(rng, G, P, out, users)
+	if rng.Intn(3) == 0 {
+		// fork shortly before the end of an epoch (60 slots of 10 s), so that the abandoned branch crosses the epoch
+		// boundary: the statistics of the finished epoch are computed (and stored) on the abandoned branch first
+		gts := int64(G.Ch.GetGenesisMomentum().TimestampUnix)
+		left := int64(1 + rng.Intn(6))
+		for (int64(FrontierOf(G.Ch).TimestampUnix)-gts)/10%60 < 60-left-4 {
+			produce(rng, G, 1, out, users)
+		}
+		LA = int(left) + 1 + rng.Intn(8)
+		LB = LA + 1 + rng.Intn(4)
+		out.Count("reorg:fork-shortly-before-epoch-end")
+	}
 	forkH := G.FrontierHeight()
 	produce(rng, G, LB, out, users)
 	chainB := WireCopyAll(DetailedRange(G.Ch, 2, G.FrontierHeight()))
